@@ -492,11 +492,137 @@ def run_manager_case(case):
             return res
     return res
 
+# ---- histories of load / copy_expr_from / assignment on ONE target manager -----------------
+
+def root_and_depth(t):
+    d = 0
+    while t[0] in ("item", "attr"):
+        t = t[1]
+        d += 1
+    return (t[1] if t[0] == "top" else None), d
+
+
+def run_all(mm):
+    order = mm.find_tasks()
+    mm.run_tasks([t for t in mm.tasks.values() if t not in order])   # definitions without dependencies
+    mm.run_tasks(order)
+
+
+def run_multistep_case(case):
+    from xdeps.tasks import ExprTask
+    res = {"fail": None, "dumps": []}
+    # sources
+    srcs = []
+    for sd in case["sources"]:
+        data = mk_all_data(sd["data"])
+        data["f"] = Funcs
+        m, ns = mk_data_manager(data, sd.get("kinds", {}))
+        for tgt, val in sd["history"]:
+            err = safe(lambda: apply_assign(ns, tgt, val))
+            if err:
+                res["skipped"] = "source history raised " + err
+                return res
+        want = [(str(build(t, ns)), str(build(e, ns))) for t, e in sd["defs"]]
+        if m.dump() != want:
+            res["generator_error"] = {"dump": m.dump(), "simulated": want}
+            return res
+        srcs.append((m, ns))
+    td = case["target"]
+    data = mk_all_data(td["data"])
+    data["f"] = Funcs
+    mt, nst = mk_data_manager(data, td.get("kinds", {}))
+    orig = dict(mt.containers)
+    labels0 = list(mt.containers)
+    expected = []      # [tstr, estr, target term, value term, bindings] in dict order
+
+    def put(tterm, eterm, binds, overwrite=True):
+        nsb = dict(orig)
+        for lab, t in binds:
+            nsb[lab] = build(t, orig)
+        ts, es = str(build(tterm, nsb)), str(build(eterm, nsb))
+        for i, x in enumerate(expected):
+            if x[0] == ts:
+                if not overwrite:
+                    return
+                del expected[i]
+                break
+        expected.append([ts, es, tterm, eterm, binds])
+
+    for step, op in enumerate(case["ops"]):
+        kind = op[0]
+        if kind == "load":
+            m, ns = srcs[op[1]]
+            err = safe(lambda: mt.load(m.dump(), overwrite=op[2]))
+            for t, e in case["sources"][op[1]]["defs"]:
+                put(t, e, [], op[2])
+        elif kind == "copy":
+            m, ns = srcs[op[1]]
+            bindings = {ns[lab]: build(t, orig) for lab, t in op[3]}
+            err = safe(lambda: mt.copy_expr_from(m, op[2], bindings if bindings else None, overwrite=op[4]))
+            for t, e in case["sources"][op[1]]["defs"]:
+                if root_and_depth(t)[0] == op[2]:
+                    put(t, e, op[3], op[4])
+        else:
+            tterm, vterm = op[1], op[2]
+            err = safe(lambda: apply_assign(orig, tterm, vterm))
+            ts = str(build(tterm, orig))
+            if vterm[0] == "const":
+                for i, x in enumerate(expected):
+                    if x[0] == ts:
+                        del expected[i]
+                        break
+            else:
+                put(tterm, vterm, [], True)
+        if err:
+            if kind == "assign":
+                res["stopped"] = f"assignment raised {err} at step {step}"
+                return res
+            res["fail"] = {"what": f"{kind} raised", "step": step, "error": err}
+            return res
+        # frame: the label -> container map is untouched
+        if list(mt.containers) != labels0 or any(mt.containers[l] is not orig[l] for l in labels0):
+            res["fail"] = {"what": "the manager's label -> container map changed", "step": step, "op": op,
+                           "containers": {l: str(r) + " (" + type(r).__name__ + ")" for l, r in mt.containers.items()}}
+            return res
+        d = mt.dump()
+        res["dumps"].append([[[ord(c) for c in a], [ord(c) for c in b]] for a, b in d])
+        if dict(d) != {x[0]: x[1] for x in expected} or len(d) != len(expected):
+            res["fail"] = {"what": "definitions after the operation differ from the expected ones", "step": step, "op": op,
+                           "dump": d, "expected": [[x[0], x[1]] for x in expected]}
+            return res
+        # values: a manager defined directly (register, no eval) over a copy of the current data
+        if any(root_and_depth(x[2])[1] + sum(1 for lab, _ in x[4] if lab == root_and_depth(x[2])[0]) > 1 for x in expected):
+            res["values_skipped_from_step"] = res.get("values_skipped_from_step", step)
+            continue
+        data_s = copy.deepcopy({k: v for k, v in data.items() if k != "f"})
+        data_s["f"] = Funcs
+        ms, nss = mk_data_manager(data_s, td.get("kinds", {}))
+        for x in expected:
+            nsb = dict(nss)
+            for lab, t in x[4]:
+                nsb[lab] = build(t, nss)
+            ms.register(ExprTask(build(x[2], nsb), build(x[3], nsb)))
+        e1, e2 = safe(lambda: run_all(mt)), safe(lambda: run_all(ms))
+        if e1 != e2:
+            res["fail"] = {"what": "running the definitions raises differently", "step": step, "errors": [e1, e2]}
+            return res
+        if e1:
+            res["stopped"] = f"running the definitions raised {e1} at step {step}"
+            return res
+        s1, s2 = snapshot(data), snapshot(data_s)
+        if s1 != s2:
+            res["fail"] = {"what": "container contents differ from a manager defined directly", "step": step, "op": op,
+                           "target": s1, "direct": s2, "dump": d}
+            return res
+    return res
+
 
 def main():
     inp = json.load(sys.stdin)
     if inp["mode"] == "exprs":
         json.dump(run_exprs(inp), sys.stdout)
+    elif inp["mode"] == "multistep":
+        json.dump({"results": [run_multistep_case(c) for c in inp["cases"]]}, sys.stdout)
     elif inp["mode"] == "managers":
         json.dump({"results": [run_manager_case(c) for c in inp["cases"]]}, sys.stdout)
     else:
